@@ -62,7 +62,6 @@ def run(ctx):
 
     # ---- C17.b pivots ------------------------------------------------------------
     K.check_time_pivots(ctx, f)
-    dec_closures = K.time_field_readers(f)
     # writers: year % 100 for UTCTime, full year for GeneralizedTime; six fields each
     for ty, first in (("UtcTime", r"^Rem\(DateTime::year\(self\.0\), 100\)$"), ("GeneralizedTime", r"^DateTime::year\(self\.0\)$")):
         wb = f.body("<%s%s as bcder::encode::PrimitiveContent>::write_encoded" % (X, ty))
@@ -82,51 +81,75 @@ def run(ctx):
                where=wb.loc, detail=parts)
 
     # ---- C17.c decoder shape -------------------------------------------------------
-    for b in dec_closures:
+    # Anchors are found by what the code does: a *digit reader* is a function of x509.rs that returns a wire number
+    # (Result<integer, DecodeError>) and takes octets from the source; its width is the number of octets it takes.  A
+    # *decoder* is a body that makes at least five two-octet reads.  The *calendar validator* is the function that
+    # builds a Time through chrono's checked constructors.
+    readers = _Readers(f)
+    parses = _int_parses(f)
+    readers.guarded = {(pb.name, c.bb) for pb, c, _, _, oks in parses if oks and all(oks)}
+    cal_fns = _calendar_fns(f)
+    if not cal_fns:
+        ctx.missing("R-GRD", "Time::from_parts", X + "Time::from_parts")
+    cal_names = {b.name for b in cal_fns}
+    consts = getattr(f, "consts", {})
+    nfields = 0
+    for b in _decoder_bodies(f, readers):
         oc = outcome(b)
-        two = [c for c in b.calls() if (c.res or "").endswith("x509::read_two_char")]
-        four = [c for c in b.calls() if (c.res or "").endswith("x509::read_four_char")]
+        reads = [(c, readers.width(c)) for c in b.calls() if not b.is_cleanup(c.bb) and readers.width(c)]
+        two = [c for c, w in reads if w == 2]
+        four = [c for c, w in reads if w == 4]
+        odd = [(short(c.res), w) for c, w in reads if w not in (2, 4)]
         if not two:
             continue
         ctx.saw_fn(b.name)
-        # classify by tag arm: blocks of UTC part have no read_four_char on their success paths
+        # classify by tag arm: blocks of UTC part have no four-octet read on their success paths
         # every read is on every success path of *its* arm and is checked
         arms = _arms(b, oc, two, four)
-        for kind, reads in arms.items():
+        for kind, rds in arms.items():
             want = (6, 0) if kind == "utc" else (5, 1)
-            n2 = sum(1 for c in reads if c.res.endswith("two_char"))
-            n4 = sum(1 for c in reads if c.res.endswith("four_char"))
-            chk = all(call_checked(b, c.bb, oc)[0] for c in reads)
-            ctx.ob("R-CHK", "%s[%s]:field-reads" % (_dec_name(f, b), kind), (n2, n4) == want and chk,
+            n2 = sum(1 for c in rds if readers.width(c) == 2)
+            n4 = sum(1 for c in rds if readers.width(c) == 4)
+            chk = all(call_checked(b, c.bb, oc)[0] for c in rds)
+            good = (n2, n4) == want and chk and not odd
+            if good:
+                nfields += sum(1 for c in rds if readers.digits_only(c))
+            ctx.ob("R-CHK", "%s[%s]:field-reads" % (_dec_name(f, b), kind), good,
                    "the %s arm reads exactly %s fixed-width numeric fields, each checked" % (kind, "6×2" if kind == "utc" else "4+5×2"),
-                   where=b.loc, detail={"two_char": n2, "four_char": n4, "all_checked": chk})
-        zg = eq_matcher(r"^Try::branch\((Source|\w+)::take_u8\(\w+\)\)↓Continue\.0$", r"^90$")
-        mpz = MustPass(f, lambda c: False, guard_fn=lambda bd, s, bb: guard_edges(bd, s, bb, zg), name="terminating 'Z'")
+                   where=b.loc, detail={"two_char": n2, "four_char": n4, "all_checked": chk, "other_widths": odd})
+        mpz = MustPass(f, lambda c: False, guard_fn=lambda bd, s, bb: _byte_is_edges(bd, s, bb, 90, consts), name="terminating 'Z'")
         ok = mpz.holds(b.name)
         ctx.ob("R-GRD", "%s:terminated-by-Z" % _dec_name(f, b), ok,
                "%s accepts only values whose next byte after the fields is 'Z'" % _dec_name(f, b), where=b.loc,
                detail=None if ok else K.why(f, mpz, b.name))
-        mpp = MustPass(f, lambda c: c.res == X + "Time::from_parts", name="Time::from_parts")
+        mpp = MustPass(f, lambda c: c.res in cal_names, name="Time::from_parts")
         ok = mpp.holds(b.name)
         ctx.ob("R-CHK", "%s→from_parts" % _dec_name(f, b), ok,
                "%s builds the time only through from_parts (calendar validation)" % _dec_name(f, b), where=b.loc,
                detail=None if ok else K.why(f, mpp, b.name))
     # the tag match in take_from: any other tag fails
-    tf = [b for n, b in f.bodies.items() if re.match(r"^repository::x509::Time::take_from::\{closure#0\}$", n)]
-    if tf:
-        b = tf[0]
-        oc = outcome(b)
-        reach = oc.success_reach()
-        # success paths must contain a read_* call: a path to success with no numeric field read = another tag accepted
-        reads = {c.bb for c in b.calls() if re.search(r"read_(two|four)_char$", c.res or "")}
-        p = b.path(0, oc.returns(), set(oc.fail_blocks) | reads)
-        ctx.ob("R-GRD", "Time::take_from:other-tags-fail", p is None,
-               "Time::take_from has no success path that avoids the UTCTime / GeneralizedTime field readers", where=b.loc,
-               detail=None if p is None else {"path": [b.line_of(x) for x in p]})
-    fp = f.body(X + "Time::from_parts")
-    if fp is None:
-        ctx.missing("R-GRD", "Time::from_parts", X + "Time::from_parts")
+    tfb = f.body(X + "Time::take_from")
+    if tfb is None:
+        ctx.missing("R-GRD", "Time::take_from:other-tags-fail", X + "Time::take_from")
     else:
+        # the content parser is whatever take_from hands to take_primitive (a closure or a named function)
+        tf = []
+        for c in tfb.calls():
+            if c.name in ("take_primitive", "take_primitive_if", "take_value", "take_value_if") and not tfb.is_cleanup(c.bb):
+                for t in K.arg_terms(c):
+                    if t[0] in ("closure", "fnref") and f.body(t[1]) is not None:
+                        tf.append(f.body(t[1]))
+        if not tf:
+            tf = [b for n, b in f.bodies.items() if re.match(r"^repository::x509::Time::take_from::\{closure#0\}$", n)]
+        for b in tf[:1]:
+            # success paths must contain a field read (directly or in a callee all of whose success paths do): a path to
+            # success with no numeric field read = another tag accepted
+            mpr = MustPass(f, lambda c: bool(readers.width(c)), name="field reader")
+            ok = mpr.holds(b.name)
+            ctx.ob("R-GRD", "Time::take_from:other-tags-fail", ok,
+                   "Time::take_from has no success path that avoids the UTCTime / GeneralizedTime field readers", where=b.loc,
+                   detail=None if ok else K.why(f, mpr, b.name))
+    for fp in cal_fns:
         ctx.saw_fn(fp.name)
         oc = outcome(fp)
         sym = oc.sym
@@ -150,68 +173,41 @@ def run(ctx):
                 adt = (r, live)
             if re.search(r"and_hms_opt\(.*parts\.3, parts\.4, parts\.5\)$", r):
                 okt = live == [1]
-        if not okt:
-            # the same fact without a match: `and_hms_opt(..).map(Time).ok_or_else(..)` is Ok exactly for Some
-            from engine.rules import peel_variant_keeping
-            sv = [strip_deep(t) for _, _, t in success_values(fp, oc)]
-            okt = bool(sv) and all(
-                t[0] == "call" and (t[3] or {}).get("name") in ("ok_or", "ok_or_else") and t[2] and
-                re.search(r"and_hms_opt\(.*parts\.3, parts\.4, parts\.5\)$", render(peel_variant_keeping(t[2][0]))) is not None
-                for t in sv)
-        ctx.ob("R-GRD", "Time::from_parts:real-date", okd,
-               "from_parts succeeds for exactly one outcome of Utc.ymd_opt(y, m, d) (the unambiguous date)", where=fp.loc, detail=adt)
-        ctx.ob("R-GRD", "Time::from_parts:real-time", okt,
-               "from_parts succeeds only if and_hms_opt(h, m, s) is Some", where=fp.loc)
+        # the same fact read off the value instead of the control flow: whatever the spelling (match, let-else, `?`,
+        # ok_or / map / and_then chains, parameter pattern), every value returned as Ok is
+        # Time(<Some-payload of and_hms_opt(<Single-payload of ymd_opt(y, m, d)>, h, m, s)>) of the six parts in order —
+        # a payload can only be had on the branch where the variant is the one named
+        forms = _Canon(f, fp).success_forms()
+        okc = bool(forms) and all(any(rx.match(v) for rx in _CALENDAR_FORMS) for v in forms)
+        key = "Time::from_parts" if fp.name == X + "Time::from_parts" else short(fp.name)
+        ctx.ob("R-GRD", "%s:real-date" % key, okd or okc,
+               "from_parts succeeds for exactly one outcome of Utc.ymd_opt(y, m, d) (the unambiguous date)", where=fp.loc,
+               detail=adt if okd or okc else {"switch": adt, "returned_as_Ok": forms})
+        ctx.ob("R-GRD", "%s:real-time" % key, okt or okc,
+               "from_parts succeeds only if and_hms_opt(h, m, s) is Some", where=fp.loc,
+               detail=None if okt or okc else {"returned_as_Ok": forms})
 
     # ---- C17.d digits only ------------------------------------------------------------
-    nparse = 0
-    for n, b in f.bodies.items():
-        if not b.file.endswith("repository/x509.rs") or is_derived(b):
-            continue
-        for c in b.calls():
-            if b.is_cleanup(c.bb) or not c.is_static:
-                continue
-            if c.name == "from_str" and c.trait == "std::str::FromStr" and c.ga and c.ga[0] in ("u8", "u16", "u32", "u64", "i32", "u128", "usize"):
-                a = K.arg_terms(c)
-                src = render(a[0])
-                wire = any(x[0] == "call" and x[3].get("name") in ("take_u8", "take_u16") for x in walk(a[0])) or \
-                    re.search(r"\$s|s⟵", src) is not None and any((c2.name == "take_u8") for c2 in b.calls())
-                if not wire:
-                    continue
-                nparse += 1
-                # an all-digits test on the same buffer dominates the parse
-                def guard(bd, s_, bb):
-                    t = bd.term(bb)
-                    if t["t"] != "switch" or t.get("dty") != "bool":
-                        return None
-                    at = bool_atom(s_.operand(t["discr"]))
-                    if not at or not isinstance(at[0], tuple) or not at[0][2] == "all":
-                        return None
-                    args = at[1]
-                    if len(args) < 2:
-                        return None
-                    pred = args[1]
-                    cls = None
-                    if pred[0] == "fnref" and pred[1].endswith("is_ascii_digit"):
-                        cls = set(range(0x30, 0x3a))
-                    elif pred[0] == "closure":
-                        cls, pr = absint.byte_class(f, pred[1], arg_index=1)
-                    if cls != set(range(0x30, 0x3a)):
-                        return None
-                    e = switch_bool_edges(bd, bb)
-                    return [(bb, e[1] if at[3] else e[0])]
-                edges = set()
-                for bi, blk in enumerate(b.blocks):
-                    if blk["term"]["t"] == "switch":
-                        e = guard(b, K.sym_of(b), bi)
-                        if e:
-                            edges.update(e)
-                ok = bool(edges) and c.bb not in b.reachable(0, removed_edges=edges)
-                ctx.ob("R-GRD", "%s:digits-only-before-from_str" % short(root_fn(f, n)), ok,
-                       "%s parses wire bytes with %s::from_str only after checking that all of them are ASCII digits "
-                       "(from_str alone accepts a leading '+')" % (short(root_fn(f, n)), c.ga[0]), where=c.where(),
-                       detail={"parsed": src})
-    ctx.floor("R-GRD", "wire-number parses in x509.rs", nparse, 2)
+    # every conversion of octets to a number with the std integer parsers (from_str / str::parse / from_str_radix, which
+    # accept a leading '+') is preceded by a test that all those octets are ASCII digits — wherever the conversion sits
+    # (the function itself, a closure handed to and_then/map, a helper that receives the octets)
+    for pb, c, ity, srcs, oks in parses:
+        for (ab, abb, buf), ok in zip(srcs, oks):
+            who = short(root_fn(f, ab.name))
+            ctx.ob("R-GRD", "%s:digits-only-before-from_str" % who, ok,
+                   "%s parses wire bytes with %s::from_str only after checking that all of them are ASCII digits "
+                   "(from_str alone accepts a leading '+')" % (who, ity), where=c.where(),
+                   detail={"parsed": render(buf)})
+    for name in sorted(readers.used):
+        rb = f.body(name)
+        ok = readers.digits_only_fn(name)
+        ctx.ob("R-GRD", "%s:digits-only" % short(name), ok,
+               "%s returns a number only for octets that are all ASCII digits" % short(name), where=rb.loc if rb else None,
+               detail=None if ok else readers.why.get(name))
+    # at review time: 2 parse sites serving the 6+6 fields of one UTCTime and one GeneralizedTime arm (there are two copies
+    # of each arm); the rule has looked at what it was armed for when every field of at least one arm of each kind is read
+    # by a digits-only reader
+    ctx.floor("R-GRD", "wire-number parses in x509.rs", nfields, 12)
 
     # ---- C17.e serial numbers ------------------------------------------------------------
     S = X + "Serial"
